@@ -1,5 +1,6 @@
 """C02 - after unsubscribe() returns the subscriber is never called again."""
 from common import *
+import xcheck
 import ileave
 import ileave2
 import gen
@@ -132,7 +133,8 @@ def run(tier, seed, replay=None):
                  + ileave.cases("subject", tier, rng, "is", only=lambda setup, threads: any("unsub" in t for t in threads))
                  + ileave2.cases(tier, rng, only_unsub=True)
                  + [("x1", "(case x1 unsub_race %d)" % (10 if tier == "quick" else 60), {"kind": "threads", "op": "subscribe_on", "how": "pool"})])
-    correspond(rep, "C02", cases, "C02 (silence after unsubscribe: timed_ok / cut specifications / silent_after_unsub)")
+    res = correspond(rep, "C02", cases, "C02 (silence after unsubscribe: timed_ok / cut specifications / silent_after_unsub)")
+    xcheck.cross_check(rep, "C02", cases, res, 40 if tier == "quick" else 400)
     c = rep.coverage
     hist = {}
     for _, _, t in cases:
